@@ -217,4 +217,28 @@ theorem run_profile_independent_unconditional (c : Cfg) (hR : 0 < c.R) (b : Bool
     run (withDebug c b) m ops orcs = run c m ops orcs :=
   run_profile_independent c hR b orcs ops m (runPre_of_small c hR orcs ops m h hs)
 
+theorem extendLoop_profile (c : Cfg) (b : Bool) (orc : Map → Nat → Orc) :
+    ∀ (items : List Entry) (m : Map) (cost : Cost),
+      Map.extendLoop (withDebug c b) orc m items cost = Map.extendLoop c orc m items cost := by
+  intro items
+  induction items with
+  | nil => intro m cost; rfl
+  | cons e rest ih =>
+    intro m cost
+    unfold Map.extendLoop
+    rw [mapInsert_profile]
+    cases Map.insert c m e (orc m rest.length) with
+    | error f => rfl
+    | ok r => obtain ⟨m', out⟩ := r; exact ih m' _
+
+/-- **`extend` behaves identically in both build profiles, whatever the iterator claims about its length** — the
+    hint is rounded without an addition that could overflow, so there is nothing for an overflow check to catch; an
+    unsatisfiable hint is `reserve`'s capacity-overflow panic in both.  (Before the repair `f47003f` the code
+    computed `(hint + 1) / 2`: a debug build panicked on a hint of `usize::MAX`, a release build reserved 0.) -/
+theorem extend_profile_independent (c : Cfg) (b : Bool) (m : Map) (items : List Entry) (hint : Nat)
+    (orc : Map → Nat → Orc) :
+    Map.extend (withDebug c b) m items hint orc = Map.extend c m items hint orc := by
+  unfold Map.extend Map.reserve
+  simp only [reserve_profile, extendLoop_profile]
+
 end Griddle.C17
